@@ -444,7 +444,9 @@ Theorem C17_nn_greedy_scale_f64_as_run : forall (k : Z) (signal response : list 
   res_map (sc_out float (fscale k) (fscale2 k)) (nn_greedy_f signal response off la).
 Proof. intros k s r off la H. apply C17_nn_greedy_scale_f64. rewrite <- C17_nn_safe_fast_eq. exact H. Qed.
 Print Assumptions C17_nn_greedy_scale_f64_as_run.
-(* the predicate has both values on in-domain-sized numbers: beyond kmax it is false whatever the waveform *)
-Example C17_safe_false_beyond_kmax : ls_safe_fast 501 ex_sig ex_resp [0; 1]%nat [2; 3]%nat = false /\
-  ls_safe_fast 500 ex_sig ex_resp [0; 1]%nat [2; 3]%nat = false /\ ls_safe_fast 400 ex_sig ex_resp [0; 1]%nat [2; 3]%nat = true.
-Proof. repeat split; vm_compute; reflexivity. Qed.
+(* the predicate has both values: true on the example up to the bound kmax = 500 on either side, false beyond it
+   whatever the waveform *)
+Example C17_safe_false_beyond_kmax :
+  map (fun k => ls_safe_fast k ex_sig ex_resp [0; 1]%nat [2; 3]%nat) [501; 500; 400; -400; -500; -501]%Z =
+  [false; true; true; true; true; false].
+Proof. vm_compute. reflexivity. Qed.
